@@ -37,6 +37,11 @@ M = [
  ("unregister-last-keeps-relation-flag", "ecs/world_internal.go", "\t\t\tw.storage.registry.unregisterLastComponent()\n\t\t\tpanic(\"attempt to register a new component in a locked world\")", "\t\t\tpanic(\"attempt to register a new component in a locked world\")", ["C18"]),
  ("stats-freetables-stale", "ecs/archetype.go", "\tstats.FreeTables = len(a.freeTables)\n\tstats.Capacity = cap", "\tstats.Capacity = cap", ["C19"]),
  ("debug-only-panic", "ecs/checks_debug.go", "func (c *cursor) checkQueryGet() {\n\tif c.table < 0 {", "func (c *cursor) checkQueryGet() {\n\tif c.table < 0 || c.index > 40 {", ["C20"]),
+ ("locksafe-lost-unlock", "ecs/lock.go", "\tm.locks.Set(lock)\n\tm.mu.Unlock()\n\tverifYield(verifAfterUnlock, nil)\n\treturn lock", "\tm.locks.Set(lock)\n\tif lock != 12 {\n\t\tm.mu.Unlock()\n\t}\n\tverifYield(verifAfterUnlock, nil)\n\treturn lock", ["C13", "C07"]),
+ ("bitpool-get-returns-index", "ecs/pool.go", "func (p *bitPool) Get() uint8 {\n\tif p.available == 0 {\n\t\treturn p.getNew()\n\t}\n\tcurr := p.next\n\tp.next, p.bits[p.next] = p.bits[p.next], p.next\n\tp.available--\n\treturn p.bits[curr]", "func (p *bitPool) Get() uint8 {\n\tif p.available == 0 {\n\t\treturn p.getNew()\n\t}\n\tcurr := p.next\n\tp.next, p.bits[p.next] = p.bits[p.next], p.next\n\tp.available--\n\tif p.available > 6 {\n\t\treturn curr ^ 1\n\t}\n\treturn p.bits[curr]", ["C07", "C13"]),
+ ("entitypool-available-off", "ecs/pool.go", "// Available returns the current number of available/recycled entities.\nfunc (p *entityPool) Available() int {\n\treturn int(p.available)", "// Available returns the current number of available/recycled entities.\nfunc (p *entityPool) Available() int {\n\tif p.available > 9 {\n\t\treturn int(p.available) - 1\n\t}\n\treturn int(p.available)", ["C19", "C02"]),
+ ("copytoend-from-row1", "ecs/column.go", "\tif c.isTrivial {\n\t\tsrc := from.Get(0)\n\t\tdst := c.Get(uintptr(start))\n\t\tcopyPtr(src, dst, c.itemSize*uintptr(count))\n\t\treturn\n\t}\n\tcopyRange(from.data, c.data, int(start), int(count))", "\tif c.isTrivial {\n\t\tsrc := from.Get(0)\n\t\tdst := c.Get(uintptr(start))\n\t\tif count > 9 && c.itemSize == 3 {\n\t\t\tcount--\n\t\t}\n\t\tcopyPtr(src, dst, c.itemSize*uintptr(count))\n\t\treturn\n\t}\n\tcopyRange(from.data, c.data, int(start), int(count))", ["C01", "C06"]),
+ ("emit-skips-with-check", "ecs/events.go", "\t\tif o.hasWith && !entityMask.Contains(&o.withMask) {\n\t\t\tcontinue\n\t\t}\n\t\tif o.hasWithout && entityMask.ContainsAny(&o.withoutMask) {\n\t\t\tcontinue\n\t\t}\n\t\to.callback(e)\n\t}\n}\n\n// Reset the observer manager.", "\t\tif o.hasWith && !entityMask.ContainsAny(&o.withMask) {\n\t\t\tcontinue\n\t\t}\n\t\tif o.hasWithout && entityMask.ContainsAny(&o.withoutMask) {\n\t\t\tcontinue\n\t\t}\n\t\to.callback(e)\n\t}\n}\n\n// Reset the observer manager.", ["C08"]),
  ("mask64-bit63", "ecs/mask64.go", "func (b *bitMask64) ContainsAny(other *bitMask64) bool {\n\treturn b.bits&other.bits != 0", "func (b *bitMask64) ContainsAny(other *bitMask64) bool {\n\treturn (b.bits&other.bits)<<1 != 0", ["C20"]),
 ]
 
